@@ -233,15 +233,348 @@ class IoTr:
         self.bad(s, 'statement')
 
 
+def _par(t):
+    return f'({t})' if ' ' in t and not (t.startswith('(') and t.endswith(')')) else t
+
+
+def lean_t(k):
+    if isinstance(k, tuple):
+        if k[0] == 'List':
+            return f'List {_par(lean_t(k[1]))}'
+        if k[0] == 'Pair':
+            return f'{_par(lean_t(k[1]))} × {_par(lean_t(k[2]))}'
+    return KIND_TYPE[k]
+
+
+def _loaded(nodes):
+    return {n.id for x in nodes for n in ast.walk(x) if isinstance(n, ast.Name) and isinstance(n.ctx, ast.Load)}
+
+
+def _stored(nodes):
+    return {n.id for x in nodes for n in ast.walk(x) if isinstance(n, ast.Name) and isinstance(n.ctx, (ast.Store, ast.Del))}
+
+
+class IoTr2(IoTr):
+    """the writer side: typed locals (lists of shapes, the type map, the pyshp writer as `WriterS`, the files written so
+    far as `zip_out`), `for` loops as `List.foldlM` over a named body `<fn>.loop<n>` (state = the variables the body
+    changes, in order of definition; closure = the other variables it reads), comprehensions as map / filter / flatten,
+    plumbing statements (temp dir, zip members, the .prj text, the type-conflict warning) skipped when they bind nothing
+    that is read later and call only what `SKIP_CALLS` lists"""
+
+    SHAPE_CLASSES = ('GeoPoint', 'MultiGeoPoint', 'LineLikeMixin', 'PolygonLikeMixin')
+    SKIP_CALLS = ('Counter', 'LOGGER.warning', 'LOGGER.info', 'zip_file.write', 'open', 'os.path.join')
+    FTYPES = {('L', None): 'FType.L', ('N', None): '(FType.N 0)', ('C', None): 'FType.C'}
+
+    def __init__(self, qual, fn, env, nt, lean, localfns, shared=None):
+        super().__init__(qual, fn, env, nt)
+        self.lean, self.localfns = lean, localfns
+        self.shared = shared if shared is not None else {'loops': 0, 'aux': []}
+        self.cont = None
+        self.ret_bare = 'pure zip_out'
+
+    def gensym(self, base='x'):
+        self.shared['sym'] = self.shared.get('sym', 0) + 1
+        return f'{base}_{self.shared["sym"]}'
+
+    # ---- iterables: (lean list text, element kind) -----------------------------------------------------------------
+    def iterable(self, e, keys=False):
+        if isinstance(e, ast.Tuple) and e.elts and all(isinstance(x, ast.Tuple) and len(x.elts) == 2 for x in e.elts):
+            items = [[self.expr(y) for y in x.elts] for x in e.elts]
+            kinds = {(a[2], b[2]) for a, b in items}
+            if len(kinds) != 1 or not all(a[1] and b[1] for a, b in items):
+                self.bad(e, 'a tuple of pairs of differing types')
+            (ka, kb), = kinds
+            return '[' + ', '.join(f'({a[0]}, {b[0]})' for a, b in items) + ']', ('Pair', ka, kb)
+        if isinstance(e, ast.Call) and ast.unparse(e.func) == 'enumerate' and len(e.args) == 1 and not e.keywords:
+            t, pure, k = self.expr(e.args[0])
+            if pure and isinstance(k, tuple) and k[0] == 'List':
+                return f'(enumFrom 0 {t})', ('Pair', 'Nat', k[1])
+        if isinstance(e, ast.Call) and isinstance(e.func, ast.Attribute) and e.func.attr in ('items', 'keys') and not e.args:
+            t, pure, k = self.expr(e.func.value)
+            vk = {'Dict': 'PVal', 'TagDict': 'PTag'}.get(k)
+            if pure and vk:
+                return (t, ('Pair', 'Str', vk)) if e.func.attr == 'items' else (f'({t}.map (·.1))', 'Str')
+        t, pure, k = self.expr(e)
+        if pure and isinstance(k, tuple) and k[0] == 'List':
+            return t, k[1]
+        if pure and k in ('Dict', 'TagDict'):
+            return f'({t}.map (·.1))', 'Str'            # iterating a dict gives its keys
+        if pure and k == 'Coll':
+            return t, 'Shape'
+        self.bad(e, 'iteration over')
+
+    def bind_target(self, target, x, kind):
+        """bind the loop / comprehension target(s) to the element `x`; returns the `let` prefix"""
+        if isinstance(target, ast.Name):
+            self.env[target.id] = (lname(target.id), kind)
+            return f'let {lname(target.id)} := {x}; '
+        if isinstance(target, ast.Tuple) and len(target.elts) == 2 and all(isinstance(t, ast.Name) for t in target.elts) \
+                and isinstance(kind, tuple) and kind[0] == 'Pair':
+            a, b = target.elts
+            self.env[a.id] = (lname(a.id), kind[1])
+            self.env[b.id] = (lname(b.id), kind[2])
+            return f'let {lname(a.id)} := {x}.1; let {lname(b.id)} := {x}.2; '
+        self.bad(target, 'loop target')
+
+    def comp(self, elt, gens):
+        saved = dict(self.env)
+        g = gens[0]
+        xs, ek = self.iterable(g.iter)
+        x = self.gensym('e')
+        binds = self.bind_target(g.target, x, ek)
+        src = xs
+        if g.ifs:
+            cs = [self.test(c) for c in g.ifs]
+            if not all(p for _t, p in cs):
+                self.bad(g.ifs[0], 'a comprehension filter that may raise')
+            src = f'({xs}.filter fun {x} => {binds}' + ' && '.join(t for t, _p in cs) + ')'
+        if len(gens) == 1:
+            t, pure, k = self.expr(elt)
+            text = f'({src}.map fun {x} => {binds}{t})' if pure else f'(mapExcept (fun {x} => {binds}{t}) {src})'
+        else:
+            inner, k, pure = self.comp(elt, gens[1:])
+            if not pure:
+                self.bad(elt, 'a nested comprehension whose element may raise')
+            k = k[1]
+            text = f'(({src}.map fun {x} => {binds}{inner}).flatten)'
+        self.env = saved
+        return text, ('List', k), pure
+
+    # ---- expressions -----------------------------------------------------------------------------------------------------
+    def expr(self, e):
+        if isinstance(e, ast.Attribute) and isinstance(e.value, ast.Name) and e.value.id in self.env:
+            t, k = self.env[e.value.id]
+            if k == 'Coll' and e.attr == 'geoshapes':
+                return t, True, ('List', 'Shape')
+            if k == 'Shape' and e.attr == 'properties':
+                return f'(Shape.properties {t})', True, 'Dict'        # pinned `BaseShapeProtocol.properties`
+            self.bad(e, 'attribute')
+        if isinstance(e, ast.Name) and e.id in self.env and self.env[e.id][1] == 'Nat':
+            return self.env[e.id][0], True, 'Nat'
+        if isinstance(e, (ast.ListComp, ast.GeneratorExp)):
+            t, k, pure = self.comp(e.elt, e.generators)
+            return t, pure, k
+        if isinstance(e, ast.Tuple) and len(e.elts) == 2:
+            (a, ap, ak), (b, bp, bk) = self.expr(e.elts[0]), self.expr(e.elts[1])
+            if ap and bp:
+                return f'({a}, {b})', True, ('Pair', ak, bk)
+        if isinstance(e, ast.Call) and isinstance(e.func, ast.Name) and not e.keywords:
+            f = e.func.id
+            if f == 'type' and len(e.args) == 1:
+                t, pure, k = self.expr(e.args[0])
+                if pure and k == 'PVal':
+                    return f'(PVal.tag {t})', True, 'PTag'
+            if f == 'set' and len(e.args) == 1 and isinstance(e.args[0], ast.GeneratorExp):
+                # a set of (key, type) pairs: its iteration order is modelled as generation order (Model/Io.lean)
+                t, pure, k = self.expr(e.args[0])
+                if pure and k == ('List', ('Pair', 'Str', 'PTag')):
+                    return t, True, k
+            if f == 'dict' and len(e.args) == 1:
+                t, pure, k = self.expr(e.args[0])
+                if pure and k == ('List', ('Pair', 'Str', 'PTag')):
+                    return f'(dictOf {t})', True, 'TagDict'
+            if f in self.localfns and len(e.args) == 1:
+                t, _p = self.bind_args(e.args, lambda a: f'{self.localfns[f]} {a[0][0]}')
+                return t, False, 'V'
+        return super().expr(e)
+
+    def test(self, e):
+        if isinstance(e, ast.Call) and isinstance(e.func, ast.Name) and e.func.id in ('isinstance', 'issubclass') \
+                and len(e.args) == 2 and isinstance(e.args[1], ast.Name):
+            t, pure, k = self.expr(e.args[0])
+            c = e.args[1].id
+            if e.func.id == 'isinstance' and k == 'Shape' and pure and c in self.SHAPE_CLASSES:
+                return f'(shapeIsA Cls.{c} {t})', True
+            if e.func.id == 'issubclass' and k == 'PTag' and pure and c in self.CLASS_TAGS:
+                return f'(PTag.isSub {t} {self.CLASS_TAGS[c]})', True
+        if isinstance(e, ast.Compare) and len(e.ops) == 1 and isinstance(e.ops[0], (ast.In, ast.NotIn)):
+            (a, ap, ak), (b, bp, bk) = self.expr(e.left), self.expr(e.comparators[0])
+            if ap and bp and ak == 'Str' and bk == 'Incl':
+                neg = '!' if isinstance(e.ops[0], ast.NotIn) else ''
+                return f'({neg}inclContains {b} {a})', True
+        if isinstance(e, ast.Name) and e.id in self.env:
+            t, k = self.env[e.id]
+            if k == 'Incl':
+                return f'(inclTruthy {t})', True
+            if isinstance(k, tuple) and k[0] == 'List':
+                return f'(!({t}).isEmpty)', True
+        return super().test(e)
+
+    # ---- statements ------------------------------------------------------------------------------------------------------
+    def skippable(self, s, rest):
+        if any(isinstance(n, (ast.Return, ast.Raise, ast.Continue, ast.Break, ast.Yield, ast.For, ast.While)) for n in ast.walk(s)):
+            return False
+        st = _stored([s])
+        if st & set(self.env) or st & _loaded(rest):
+            return False
+        for n in ast.walk(s):
+            if isinstance(n, ast.Call):
+                f = ast.unparse(n.func)
+                if f in self.SKIP_CALLS:
+                    continue
+                if isinstance(n.func, ast.Attribute) and n.func.attr in ('most_common', 'split'):
+                    continue
+                if isinstance(n.func, ast.Attribute) and n.func.attr == 'write' and isinstance(n.func.value, ast.Name) \
+                        and n.func.value.id in st:
+                    continue
+                return False
+        return True
+
+    def mutated(self, body):
+        m = set(_stored(body))
+        for n in (x for b in body for x in ast.walk(b)):
+            if isinstance(n, ast.Call) and isinstance(n.func, ast.Attribute) and isinstance(n.func.value, ast.Name):
+                if n.func.attr in ('append', 'field', 'record'):
+                    m.add(n.func.value.id)
+                if n.func.attr == 'close':
+                    m.add('zip_out')
+                if n.func.attr == 'to_pyshp' and n.args and isinstance(n.args[0], ast.Name):
+                    m.add(n.args[0].id)
+        return m
+
+    def block(self, stmts, fall='pure zip_out'):
+        if not stmts:
+            return fall
+        s, rest = stmts[0], stmts[1:]
+        if isinstance(s, (ast.Import, ast.ImportFrom)):
+            return self.block(rest, fall)
+        if isinstance(s, ast.FunctionDef) and s.name in self.localfns:
+            return self.block(rest, fall)           # translated as a definition of its own
+        if isinstance(s, ast.Return) and s.value is None:
+            return self.ret_bare
+        if isinstance(s, ast.Continue) and self.cont is not None:
+            return self.cont
+        if isinstance(s, ast.Raise) and isinstance(s.exc, ast.Call) and isinstance(s.exc.func, ast.Name) \
+                and s.exc.func.id in ('ValueError', 'TypeError', 'KeyError'):
+            return f'.error "ERR:{s.exc.func.id[:-5]}"'
+        if isinstance(s, ast.AnnAssign) and isinstance(s.target, ast.Name) and isinstance(s.value, ast.List) and not s.value.elts:
+            ann = ast.unparse(s.annotation)
+            inner = ann[5:-1] if ann.startswith('List[') else None
+            if inner not in self.SHAPE_CLASSES:
+                self.bad(s, 'annotation')
+            self.env[s.target.id] = (lname(s.target.id), ('List', 'Shape'))
+            return f'let {lname(s.target.id)} : List Shape := []\n' + self.block(rest, fall)
+        if isinstance(s, ast.With) and len(s.items) == 1 and ast.unparse(s.items[0].context_expr) == 'tempfile.TemporaryDirectory()' \
+                and isinstance(s.items[0].optional_vars, ast.Name):
+            self.env[s.items[0].optional_vars.id] = ('()', 'Path')
+            return self.block(list(s.body) + rest, fall)
+        if isinstance(s, ast.For) and not s.orelse:
+            return self.for_stmt(s, rest, fall)
+        if isinstance(s, ast.Expr) and isinstance(s.value, ast.Call) and isinstance(s.value.func, ast.Attribute) \
+                and isinstance(s.value.func.value, ast.Name) and s.value.func.value.id in self.env:
+            r = self.method_stmt(s.value, rest, fall)
+            if r is not None:
+                return r
+        if isinstance(s, ast.Assign) and len(s.targets) == 1 and isinstance(s.targets[0], ast.Name) \
+                and ast.unparse(s.value.func if isinstance(s.value, ast.Call) else s.value) == 'shapefile.Writer':
+            a = s.value.args
+            if len(a) == 1 and isinstance(a[0], ast.Call) and ast.unparse(a[0].func) == 'os.path.join' and len(a[0].args) == 2:
+                d, _p, dk = self.expr(a[0].args[0])
+                n, npure, nk = self.expr(a[0].args[1])
+                if dk == 'Path' and nk == 'Str' and npure:
+                    self.env[s.targets[0].id] = (lname(s.targets[0].id), 'Writer')
+                    return f'let {lname(s.targets[0].id)} := WriterS.new {n}\n' + self.block(rest, fall)
+            self.bad(s, 'only shapefile.Writer(os.path.join(<temp dir>, <layer name>)) is read')
+        if isinstance(s, (ast.If, ast.With, ast.Expr, ast.Assign, ast.AugAssign)) and self.skippable(s, rest) \
+                and not (isinstance(s, ast.Assign)):
+            return self.block(rest, fall)
+        return super().block(stmts, fall)
+
+    def method_stmt(self, c, rest, fall):
+        recv = c.func.value.id
+        rt, rk = self.env[recv]
+        m = c.func.attr
+        if m == 'append' and isinstance(rk, tuple) and rk[0] == 'List' and len(c.args) == 1 and not c.keywords:
+            t, pure, k = self.expr(c.args[0])
+            if pure and k == rk[1]:
+                return f'let {rt} := {rt} ++ [{t}]\n' + self.block(rest, fall)
+        if m == 'field' and rk == 'Writer' and len(c.args) == 2 and isinstance(c.args[1], ast.Constant):
+            k, kp, kk = self.expr(c.args[0])
+            kws = {x.arg: x.value for x in c.keywords}
+            code = c.args[1].value
+            ft = None
+            if not kws and (code, None) in self.FTYPES:
+                ft = self.FTYPES[(code, None)]
+            elif code == 'N' and set(kws) == {'decimal'} and isinstance(kws['decimal'], ast.Constant) and isinstance(kws['decimal'].value, int):
+                ft = f'(FType.N {kws["decimal"].value})'
+            if ft and kp and kk == 'Str':
+                return f'let {rt} := WriterS.field {rt} {k} {ft}\n' + self.block(rest, fall)
+        if m == 'record' and rk == 'Writer' and not c.keywords:
+            parts, wraps = [], []
+            for a in c.args:
+                if isinstance(a, ast.Starred):
+                    t, pure, k = self.expr(a.value)
+                    if k != ('List', 'V'):
+                        self.bad(a, 'a starred argument that is not a list of values')
+                    if not pure:
+                        x = self.gensym('r')
+                        wraps.append((x, t))
+                        t = x
+                    parts.append(f'({t}.map V.toP)')
+                else:
+                    t, pure, k = self.expr(a)
+                    if not pure or k not in ('Nat', 'V'):
+                        self.bad(a, 'record value')
+                    parts.append(f'[PVal.int {t}]' if k == 'Nat' else f'[V.toP {t}]')
+            tail = f'let {rt} := WriterS.record {rt} (' + ' ++ '.join(parts) + ')\n' + self.block(rest, fall)
+            for x, t in reversed(wraps):
+                tail = f'({t}) >>= fun {x} =>\n{tail}'
+            return tail
+        if m == 'to_pyshp' and rk == 'Shape' and len(c.args) == 1 and isinstance(c.args[0], ast.Name) \
+                and self.env.get(c.args[0].id, (None, None))[1] == 'Writer':
+            w = self.env[c.args[0].id][0]
+            x = self.gensym('call')
+            tail = py2lean._indent(f'let {w} := WriterS.shape {w} {x}\n' + self.block(rest, fall))
+            return f'match toPyshp ({rt}).geom with\n| Option.none => .error "ERR:Attr"\n| Option.some {x} =>\n{tail}'
+        if m == 'close' and rk == 'Writer' and not c.args:
+            return f'let zip_out := zip_out ++ [({rt}).file]\n' + self.block(rest, fall)
+        return None
+
+    def for_stmt(self, s, rest, fall):
+        self.shared['loops'] += 1
+        num = self.shared['loops']
+        name = f'{self.lean}.loop{num}'
+        xs, ek = self.iterable(s.iter)
+        muts = self.mutated(s.body)
+        tnames = _stored([s.target])
+        state = [v for v in self.env if v in muts and v not in tnames]
+        if not state:
+            self.bad(s, 'a loop that changes nothing')
+        loaded = _loaded(s.body) | ({'zip_out'} if 'zip_out' in muts else set())
+        closure = [v for v in self.env if v in loaded and v not in state and v not in tnames and self.env[v][1] != 'Path']
+        sub = IoTr2(self.qual, self.fn, {v: self.env[v] for v in self.env if v in closure or v in state or self.env[v][1] == 'Path'},
+                    self.nt, self.lean, self.localfns, self.shared)
+        sub.ret_bare = None
+        tup = '(' + ', '.join(self.env[v][0] for v in state) + ')' if len(state) > 1 else self.env[state[0]][0]
+        sub.cont = f'pure {tup}'
+        binds = sub.bind_target(s.target, 'x', ek).replace('; ', '\n')
+        projs = []
+        for i, v in enumerate(state):
+            p = 'st' + '.2' * i + ('.1' if i < len(state) - 1 else '')
+            projs.append(f'let {self.env[v][0]} := {p}' if len(state) > 1 else f'let {self.env[v][0]} := st')
+        body = sub.block(list(s.body), sub.cont)
+        st_t = ' × '.join(_par(lean_t(self.env[v][1])) for v in state)
+        cb = ' '.join(f'({self.env[v][0]} : {lean_t(self.env[v][1])})' for v in closure)
+        aux = (f'/-- body of the {num}. loop of `{self.qual}`: `for {ast.unparse(s.target)} in {ast.unparse(s.iter)[:60]}` -/\n'
+               f'def {name} {cb} (st : {st_t}) (x : {lean_t(ek)}) : Except String ({st_t}) :=\n' +
+               py2lean._indent('\n'.join(projs) + '\n' + binds + body))
+        self.shared['aux'].append(aux)
+        call = f'List.foldlM ({name}' + ''.join(' ' + self.env[v][0] for v in closure) + f') {tup} {xs}'
+        return f'({call}) >>= fun st =>\n' + '\n'.join(projs) + '\n' + self.block(rest, fall)
+
+
 class Fn:
     """one translated definition: `qual` (dotted path, nested defs included), Lean name, parameters [(python name, kind)],
     `closure`: names read from the enclosing function's parameters, `nt`: truthiness of the channel's null"""
 
-    def __init__(self, qual, lean, params, closure=(), nt='false', doc=''):
+    def __init__(self, qual, lean, params, closure=(), nt='false', doc='', writer=False, localfns=None):
         self.qual, self.lean, self.params, self.closure, self.nt, self.doc = qual, lean, list(params), list(closure), nt, doc
+        self.writer, self.localfns = writer, localfns or {}
 
 
-KIND_TYPE = {'V': 'V', 'Str': 'String', 'Dict': 'Dict PVal'}
+KIND_TYPE = {'V': 'V', 'Str': 'String', 'Dict': 'Dict PVal', 'Shape': 'Shape', 'Nat': 'Nat', 'PVal': 'PVal', 'PTag': 'PTag',
+             'TagDict': 'Dict PTag', 'Incl': 'Option (List String)', 'Writer': 'WriterS', 'Out': 'List ShpFileW', 'Path': 'Unit',
+             'Coll': 'List Shape'}
 
 
 def find_def(tree, qual):
@@ -303,15 +636,24 @@ class IoUnit:
         for n, k in f.params:
             env[n] = (lname(n), k)
         # every other free name must be known to the reading (builtins / classes); locals are bound by assignment
-        tr = IoTr(f.qual, node, env, f.nt)
-        body = tr.block(list(node.body))
-        binders = ' '.join(f'({lname(n)} : {KIND_TYPE[k]})' for n, k in list(f.closure) + list(f.params))
+        pre, ret = [], 'Except String V'
+        if f.writer:
+            env['zip_out'] = ('zip_out', 'Out')
+            tr = IoTr2(f.qual, node, env, f.nt, f.lean, f.localfns)
+            body = 'let zip_out : List ShpFileW := []\n' + tr.block(list(node.body))
+            for a_ in tr.shared['aux']:
+                pre += a_.split('\n') + ['']
+            ret = 'Except String (List ShpFileW)'
+        else:
+            tr = IoTr(f.qual, node, env, f.nt)
+            body = tr.block(list(node.body))
+        binders = ' '.join(f'({lname(n)} : {lean_t(k)})' for n, k in list(f.closure) + list(f.params) if k != 'Path')
         shown = ast.parse(ast.unparse(node)).body[0]
         if shown.body and isinstance(shown.body[0], ast.Expr) and isinstance(shown.body[0].value, ast.Constant) and len(shown.body) > 1:
             shown.body = shown.body[1:]
         doc = [f'/-- `{f.qual}`' + (f' — {f.doc}' if f.doc else ''), '```']
         doc += [ln.replace('-/', '- /') for ln in ast.unparse(shown).split('\n')][:40] + ['```', '-/']
-        return doc + [f'def {f.lean} {binders} : Except String V :='] + ['  ' + ln for ln in body.split('\n')]
+        return pre + doc + [f'def {f.lean} {binders} : {ret} :='] + ['  ' + ln for ln in body.split('\n')]
 
 
 def unit():
@@ -325,13 +667,18 @@ def unit():
            doc='a dbf null is `None`'),
         Fn('CollectionBase.from_geopandas._get_dt', 'gpdGetDt', [('rec', 'Dict')], closure=FS, nt='true',
            doc='a null cell is `NaN` / `NaT` (truthy); a `None` cell is absent'),
+        Fn('CollectionBase.to_shapefile', 'toShapefile', [('self', 'Coll'), ('zip_file', 'Path'), ('include_properties', 'Incl')],
+           nt='false', writer=True, localfns={'_convert_dt': 'convertDt'},
+           doc='what reaches the pyshp writers, file after file (`zip_out`)'),
     ]
     pins = {
         'time.py::TimeInterval.__init__': PIN_TI,        # `V.mkTI`
         '_base.py::BaseShape.__init__': PIN_BASE,        # `dtOfArg`
+        '_base.py::BaseShapeProtocol.properties': PIN_PROPS,   # the model's `Shape.properties`
     }
     return IoUnit(path, fns, pins, os.path.dirname(path))
 
 
 PIN_TI = '6f42465261678d41'
 PIN_BASE = '9f9f957bce376782'
+PIN_PROPS = 'c3680611154b60f9'
